@@ -45,6 +45,30 @@ def crash_sig(resp):
     return f"{resp['status']}:{msg}" if resp["status"] == "panic" else resp["status"]
 
 
+def tlaps_proof(module, deps):
+    """Check a TLAPS proof in a scratch copy; returns a summary string.  A failing proof is
+    a specification error (exit 2); a missing prover is recorded, not an error."""
+    import os
+    import re
+    import shutil
+    import subprocess
+    if not shutil.which("tlapm"):
+        return "tlapm not installed: proof not re-checked"
+    wd = vlib.workdir("tlaps")
+    for m in [module] + deps:
+        shutil.copy(os.path.join(vlib.SPEC, m + ".tla"), wd)
+    try:
+        p = subprocess.run(["timeout", "600", "tlapm", "--threads", "8", module + ".tla"], cwd=wd, stdout=subprocess.PIPE,
+                           stderr=subprocess.STDOUT, text=True)
+    finally:
+        out = locals().get("p").stdout if locals().get("p") else ""
+        shutil.rmtree(wd, ignore_errors=True)
+    m = re.search(r"All (\d+) obligations proved", out)
+    if not m:
+        raise vlib.ToolError(f"TLAPS proof {module} failed:\n" + out[-1500:])
+    return f"{module}.tla: all {m.group(1)} obligations proved (Spec => [](Linear /\\ Bounded) for input of any length)"
+
+
 def run(rep, tier, seed):
     rnd = random.Random(seed)
     big = tier == "thorough"
@@ -64,6 +88,9 @@ def run(rep, tier, seed):
     rep.notes.setdefault("negative_controls", []).append({"deviation": "ZStutter", "violated": rn.violated})
     if rn.violated != "Progress":
         raise vlib.ToolError("negative control ZStutter did not violate Progress")
+    # the same statements for token sequences of ANY length: TLAPS proof (spec/ScanProof.tla)
+    proved = tlaps_proof("ScanProof", ["Scan"])
+    rep.notes["tlaps"] = proved
     rl = vlib.run_tlc("MC_Interp", interp.mc_cfg("loop", liveness=True, MaxNodes=2), "c01-live", workers=8, timeout=900, keep_stdout=False)
     if not rl.ok:
         raise vlib.ToolError(f"Interp.tla Finishes: {rl.violated}")
